@@ -96,3 +96,21 @@ Definition run_big_rl_p3 (client : bool) (headers : bytes) (parts : list big_par
   let ps := map big_part_to parts in
   let e := if client then p3_encode headers ps else p3_encode_body headers ps in
   OL [dg e; run_rl_p3 client e pol].
+
+(* The v3 client stack on a response delivered in arbitrary reads (a socket medium
+   returns whatever has arrived, not the requested count): ProtocolThreeDecoder feeds
+   ConventionalResponseHandler; read_response_tuple / read_streamed_body hand out the
+   arguments, every queued body chunk in order, then the stream error. *)
+Definition run_client3 (stream : bytes) (lens : list nat) : obs :=
+  let s := fold_left p3_accept (cut lens stream) p3_init_client in
+  match p3_phase_of s with
+  | P3Failed e => OE e
+  | _ => match rh_run rh_init (p3_events s) with
+         | None => OE "SmartProtocolError"
+         | Some r => OL [obool (p3_finished s); oopt (fun b => OB [b]) (rh_status r); oopt obytes (rh_args r);
+                         olist obytes (rh_parts r); oopt obytes (rh_error_args r)]
+         end
+  end.
+Definition run_cdec3 (headers : bytes) (ok : bool) (args : bytes) (body : resp_body) (lens : list nat) : obs :=
+  let enc := p3_encode headers (response_parts ok args body) in
+  OL [OB enc; run_client3 enc lens].
